@@ -232,6 +232,134 @@ class PostTable(object):
             defcls, func.name, ast.unparse(arg)))
 
 
+class GuardTable(object):
+    """per method: does every path to a post pass a test first?
+
+    "same"  every statement that posts (directly, through `self.dirty = ...`, through a call / property assignment /
+            item assignment on self that posts) sits inside an `if`, or is preceded - at the top level of the body - by
+            an `if` that contains a `return`: the method compares first and can return without posting;
+    "none"  some posting statement is reached unconditionally.
+    Tests that are not value guards are looked through: a bare parameter name (`if postNotification:`) and anything
+    that mentions `dispatcher` (is the object attached?).  A statement that delegates the posting to one other method
+    takes that method's verdict.  Purely syntactic, like the other tables."""
+
+    def __init__(self, classes, pt):
+        self.classes = classes
+        self.pt = pt
+        self.memo = {}
+        self.active = set()
+
+    def _posts_in(self, cls, defcls, func, node):
+        fake = ast.FunctionDef(name=func.name + "#stmt", args=func.args, body=[node], decorator_list=[], lineno=0)
+        key = (cls, defcls, fake.name)
+        self.pt.memo.pop(key, None)
+        res = self.pt.posts(cls, defcls, fake)
+        self.pt.memo.pop(key, None)
+        return res
+
+    def _transparent(self, func, test):
+        params = set(a.arg for a in func.args.args + func.args.kwonlyargs)
+        if isinstance(test, ast.Name) and test.id in params:
+            return True
+        return any(isinstance(n, (ast.Name, ast.Attribute)) and
+                   ((isinstance(n, ast.Name) and n.id == "dispatcher") or
+                    (isinstance(n, ast.Attribute) and n.attr == "dispatcher")) for n in ast.walk(test))
+
+    def _delegate(self, cls, defcls, st):
+        """(defining class, method) when the statement hands the whole job to one method of self"""
+        call = None
+        if isinstance(st, ast.Expr) and isinstance(st.value, ast.Call):
+            call = st.value
+        elif isinstance(st, ast.Return) and isinstance(st.value, ast.Call):
+            call = st.value
+        if call is not None and isinstance(call.func, ast.Attribute):
+            f = call.func
+            if _is_self(f.value):
+                return resolve_method(self.classes, cls, f.attr)
+            if _is_super_call(f.value):
+                return resolve_method(self.classes, cls, f.attr, after=defcls)
+        if isinstance(st, ast.Assign) and len(st.targets) == 1:
+            t = st.targets[0]
+            if isinstance(t, ast.Attribute) and _is_self(t.value) and t.attr != "dirty":
+                sname = resolve_setter(self.classes, cls, t.attr)
+                if sname is not None:
+                    return resolve_method(self.classes, cls, sname)
+            if isinstance(t, ast.Subscript) and _is_self(t.value):
+                return resolve_method(self.classes, cls, "__setitem__")
+        return None, None
+
+    def guard(self, cls, defcls, func):
+        key = (cls, defcls, func.name)
+        if key in self.memo:
+            return self.memo[key]
+        if key in self.active:
+            return "same"
+        self.active.add(key)
+        res = self._body(cls, defcls, func, func.body, False)
+        self.active.discard(key)
+        self.memo[key] = res
+        return res
+
+    def _body(self, cls, defcls, func, body, early):
+        for st in body:
+            if isinstance(st, ast.If):
+                if self._transparent(func, st.test):
+                    if self._body(cls, defcls, func, st.body, early) == "none":
+                        return "none"
+                    if self._body(cls, defcls, func, st.orelse, early) == "none":
+                        return "none"
+                    continue
+                if any(isinstance(n, ast.Return) for n in ast.walk(st)):
+                    early = True
+                continue                      # whatever it posts, it posts behind a test
+            if early:
+                continue
+            if not self._posts_in(cls, defcls, func, st):
+                continue
+            dc, m = self._delegate(cls, defcls, st)
+            if m is not None and self.pt.posts(cls, dc, m):
+                if self.guard(cls, dc, m) == "none":
+                    return "none"
+                continue
+            return "none"
+        return "same"
+
+
+class DestroyTable(object):
+    """per method the representation names it destroys by a DIRECT `self.destroyRepresentation(...)` call (closed over
+    calls of methods of self): a string literal gives the name, anything else gives "*" """
+
+    def __init__(self, classes):
+        self.classes = classes
+        self.memo = {}
+        self.active = set()
+
+    def destroys(self, cls, defcls, func):
+        key = (cls, defcls, func.name)
+        if key in self.memo:
+            return self.memo[key]
+        if key in self.active:
+            return set()
+        self.active.add(key)
+        res = set()
+        for n in _walk_no_nested(func):
+            if isinstance(n, ast.Call) and isinstance(n.func, ast.Attribute) and _is_self(n.func.value):
+                f = n.func
+                if f.attr in ("destroyRepresentation", "destroyAllRepresentations"):
+                    a = n.args[0] if n.args else None
+                    if f.attr == "destroyRepresentation" and isinstance(a, ast.Constant) and isinstance(a.value, str):
+                        res.add(a.value)
+                    else:
+                        res.add("*")
+                else:
+                    dc, m = resolve_method(self.classes, cls, f.attr)
+                    if m is not None:
+                        res |= self.destroys(cls, dc, m)
+        self.active.discard(key)
+        self.memo[key] = res
+        return res
+
+
 def extract_factories(repo):
     out = []
     d = os.path.join(repo, OBJECT_DIR)
@@ -363,6 +491,23 @@ def render(repo):
         if ok and isinstance(v, str):
             change.append((c, v))
     obs = extract_observes(classes)
+    gt = GuardTable(classes, pt)
+    dt = DestroyTable(classes)
+    guards, destroys = [], []
+    for c in POST_CLASSES:
+        seen = set()
+        for dc in mro(classes, c):
+            for mname, func in classes[dc].methods.items():
+                if mname in seen:
+                    continue
+                seen.add(mname)
+                if pt.posts(c, dc, func):
+                    guards.append((c, mname, gt.guard(c, dc, func)))
+                ds = dt.destroys(c, dc, func)
+                if ds:
+                    destroys.append((c, mname, sorted(ds)))
+    guards.sort()
+    destroys.sort()
 
     L = []
     L.append("/-")
@@ -403,11 +548,25 @@ def render(repo):
     L.append(",\n".join("  (%s, %s, %s, %s)" % tuple(lean_str(x) for x in row) for row in obs))
     L.append("]")
     L.append("")
-    L.append("def tables : Tables := { factories := factories, changeName := changeName, posts := posts, observes := observes }")
+    L.append("/-- (class, method) ↦ \"same\": every post sits behind a test (the method can return without posting); \"none\": a post is")
+    L.append("reached unconditionally -/")
+    L.append("def guards : List ((String × String) × String) := [")
+    L.append(",\n".join("  ((%s, %s), %s)" % (lean_str(c), lean_str(m), lean_str(g)) for c, m, g in guards))
+    L.append("]")
+    L.append("")
+    L.append("/-- (class, method) ↦ representation names destroyed by a direct `self.destroyRepresentation` call (\"*\": computed) -/")
+    L.append("def destroys : List ((String × String) × List String) := [")
+    L.append(",\n".join("  ((%s, %s), %s)" % (lean_str(c), lean_str(m), lean_list([lean_str(x) for x in ds]))
+                        for c, m, ds in destroys))
+    L.append("]")
+    L.append("")
+    L.append("def tables : Tables := { factories := factories, changeName := changeName, posts := posts, observes := observes,")
+    L.append("                         guards := guards, destroys := destroys }")
     L.append("")
     L.append("end DefconModel.Gen.ReprTables")
     L.append("")
-    info = dict(factories=len(facs), posts=len(posts), observes=len(obs), classes=len(change))
+    info = dict(factories=len(facs), posts=len(posts), observes=len(obs), classes=len(change), guards=len(guards),
+                destroys=len(destroys))
     return "\n".join(L), info, dict(factories=facs, posts=posts, observes=obs, change=change)
 
 
